@@ -364,7 +364,15 @@ pub fn gen_call(rng: &mut Rng) -> Call {
             Op::Annotate { text: gen_text(rng, pool, &cfg, n) }
         }
         _ => {
-            let code = if rng.chance(3, 4) { LANG_CODES[lang].to_string() } else { (*rng.pick(&["", "xx", "EN", "eng", "pt", "de "])).to_string() };
+            let known = crate::vocab::LANG_CODES_KNOWN;
+            let code = if !known.is_empty() && rng.chance(1, 3) {
+                // any code the tree under test knows about
+                rng.word(known).to_string()
+            } else if rng.chance(2, 3) {
+                LANG_CODES[lang].to_string()
+            } else {
+                (*rng.pick(&["", "xx", "EN", "eng", "pt", "de "])).to_string()
+            };
             let n = rng.range(1, 4);
             Op::Lookup { code, text: words(rng, n).join(" ") }
         }
@@ -646,7 +654,18 @@ fn systematic_families(rng: &mut Rng, budget: usize) -> Vec<Call> {
 
 pub fn gen_corpus(seed: u64, n: usize) -> Vec<Call> {
     let mut rng = Rng::new(crate::rng::run_seed(seed, "C14-corpus", 0));
-    let mut out: Vec<Call> = systematic_families(&mut rng, n / 2);
+    let mut out: Vec<Call> = vec![];
+    for (k, code) in crate::vocab::LANG_CODES_KNOWN.iter().enumerate() {
+        out.push(Call {
+            lang: k % 7,
+            concrete: false,
+            op: Op::Lookup { code: code.to_string(), text: rng.word(POOLS[k % 7].units).to_string() },
+            crash_at: 0,
+            reenter: 0,
+            during_unwind: false,
+        });
+    }
+    out.extend(systematic_families(&mut rng, n / 2));
     while out.len() < n {
         let base = gen_call(&mut rng);
         let nvar = *rng.pick(&[0usize, 0, 1, 2, 3, 4]);
